@@ -318,14 +318,22 @@ pub async fn exec(app: &Arc<AppShareData>, op: &Value) -> Value {
                 let data = crate::node::unhex(op["hex"].as_str().unwrap_or(""));
                 app.transfer_import_manager.send(TransferImportRequest::Import(data, TransferImportParam::all())).await??;
                 let deadline = std::time::Instant::now() + std::time::Duration::from_millis(op["ms"].as_u64().unwrap_or(30000));
+                // "publish_during": n ordinary publishes (keys of their own) issued WHILE the importer writes - a client does
+                // not wait for an operator's import; their log entries land between the importer's
+                let during = op["publish_during"].as_u64().unwrap_or(0);
+                let mut during_ok = 0u64;
+                for i in 0..during {
+                    let r = Box::pin(exec(app, &json!({"op":"cfg_publish","data_id":format!("during-import-{}", i),"value":format!("during-import-{}-{}", op["tag"].as_str().unwrap_or(""), i)}))).await;
+                    if r["res"] == "ok" { during_ok += 1; }
+                }
                 loop {
                     let m = app.raft.metrics().borrow().clone();
                     if m.last_log_index > 0 && m.last_applied == m.last_log_index {
-                        let v = store.get_log_entries(m.last_log_index, m.last_log_index + 1).await?;
-                        let fin = v.last().map(|e| matches!(&e.payload, EntryPayload::Normal(n) if matches!(&n.data, ClientRequest::McpReq { req: rnacos::mcp::model::actor_model::McpManagerRaftReq::ImportFinished }))).unwrap_or(false);
+                        let v = store.get_log_entries(m.last_log_index.saturating_sub(during + 1).max(1), m.last_log_index + 1).await?;
+                        let fin = v.iter().rev().find(|e| !matches!(&e.payload, EntryPayload::Normal(n) if matches!(&n.data, ClientRequest::ConfigSet { .. }))).map(|e| matches!(&e.payload, EntryPayload::Normal(n) if matches!(&n.data, ClientRequest::McpReq { req: rnacos::mcp::model::actor_model::McpManagerRaftReq::ImportFinished }))).unwrap_or(false);
                         if fin {
                             // (component actors take the last entries asynchronously on no path here: the leader path awaits them)
-                            break Ok(json!({"res":"ok","last_log_index":m.last_log_index}));
+                            break Ok(json!({"res":"ok","last_log_index":m.last_log_index,"published_during":during_ok}));
                         }
                     }
                     if std::time::Instant::now() > deadline {
